@@ -11,7 +11,8 @@ cd $D/verif
 export GOFLAGS=-mod=mod GOPROXY=off
 for id in "$@"; do
   git -C $D/repo apply /verif/seeded/$id/patch.diff || { echo -e "$id\tALL\tPATCH-DOES-NOT-APPLY" >> $D/results.tsv; continue; }
-  for c in C01 C02 C03 C04 C05 C06 C07 C08 C09 C10 C11 C12 C13 C14 C15 C16 C17 C18 C19 C20; do
+  for c in ${CHECKS:-C01 C02 C03 C04 C05 C06 C07 C08 C09 C10 C11 C12 C13 C14 C15 C16 C17 C18 C19 C20}; do
+    [ "$c" = OWN ] && c=${id%-*}
     out=$(./check $c --tier quick 2>&1); rc=$?
     key=$(echo "$out" | grep -m1 "key=" | sed 's/^ *key=//' | cut -c1-120)
     echo -e "$id\t$c\t$rc\t$key" >> $D/results.tsv
